@@ -1758,3 +1758,45 @@ def rule_partialunknown(ctx) -> RuleResult:
                        "time and a chunked kept dimension returns the values of different label sets side by side ([[2, 2], [4, 4]] under labels [0, 1] "
                        "where the answer is [[2, 2, 0], [0, 0, 4]] under [0, 1, 2])")
     return res
+
+
+# ---------------------------------------------------------------------------------------------
+# R-ZEROBLOCK (C19, C11): a blockwise plan never announces a block without labels.
+# The blockwise plan lists the labels of every block; a zero-length block (legal in dask, common after slicing) contributes an empty list, i.e. a
+# zero-size chunk of the lazy result, and dask's `take` in the final re-index cannot index such a chunk ("range() arg 3 must not be zero") --
+# the automatic plan fails where method="map-reduce" works.  Between the plan choice and the graph constructor, groupby_reduce must drop
+# zero-length blocks for the blockwise plan: a re-bind of the array to `.rechunk(...)` whose chunk lists are filtered for `> 0`, under a
+# `method == "blockwise"` test.  (An explicit method="blockwise" with numpy labels already goes through rechunk_for_blockwise, which merges them.)
+def rule_zeroblock(ctx) -> RuleResult:
+    res = RuleResult("R-ZEROBLOCK", "zero-length blocks are dropped before a blockwise plan lists the labels of every block", min_instances=1)
+    from ..astutil import guard_facts
+    gr = ctx.prog.func("core.groupby_reduce")
+    call = None
+    for n in walk_own(gr.node):
+        if isinstance(n, ast.Assign) and isinstance(n.value, ast.Call) and norm(n.value.func) == "_choose_method":
+            call = n
+    if call is None:
+        raise AnalysisError("groupby_reduce no longer calls _choose_method (anchor)")
+    dg = ctx.prog.func("core.dask_groupby_agg")
+    if not _per_block_concats(dg):
+        res.notes.append("the blockwise plan no longer lists labels per block: rule not applicable")
+        res.min_instances = 0
+        return res
+    pm = parents_map(gr.node)
+    arr = gr.params[0]
+    found = []
+    for a in walk_own(gr.node):
+        if isinstance(a, ast.Assign) and len(a.targets) == 1 and norm(a.targets[0]) == arr and a.lineno > call.lineno and isinstance(a.value, ast.Call) \
+                and isinstance(a.value.func, ast.Attribute) and a.value.func.attr == "rechunk":
+            filt = any(isinstance(c, ast.Compare) and isinstance(c.ops[0], (ast.Gt, ast.NotEq, ast.GtE)) and any(isinstance(k, ast.Constant) and k.value in (0, 1) for k in c.comparators)
+                       for c in ast.walk(a.value))
+            blockwise = any(at.replace('"', "'") == "method == 'blockwise'" and pol for at, pol in guard_facts(a, pm))
+            if filt and blockwise:
+                found.append(a)
+    res.inst(f"groupby_reduce: zero-length blocks dropped for the blockwise plan after the plan choice: {bool(found)}", "drop")
+    if not found:
+        res.report("core.groupby_reduce|blockwise-lists-labels-of-empty-blocks", gr.where(call), gr.qualname,
+                   "after the plan choice nothing removes zero-length blocks for method == 'blockwise': the per-block label list of such a block is empty, the lazy result "
+                   "gets a zero-size chunk, and the final re-index fails inside dask ('range() arg 3 must not be zero') for the automatically chosen plan while "
+                   "method='map-reduce' succeeds")
+    return res
